@@ -46,7 +46,7 @@ static const cfg_t cfgs[] = {
       { { K_X, D_1, -1 }, { K_U1, D_1, -1 } }, K_X, { { A_BCAST, -1 } } },
     { "U0:D1 + U0:D2 | U1: sig", 1, 2,
       { { K_U0, D_1, -1 }, { K_U0, D_2, -1 } }, K_U1, { { A_SIG, -1 } } },
-    { "X:D2 + X:D1 + U1:none | X: sig, sig", 1, 3,
+    { "X:D2 + X:D1 + U1:none | X: sig, sig", 0, 3,
       { { K_X, D_2, -1 }, { K_X, D_1, -1 }, { K_U1, D_NONE, -1 } }, K_X,
       { { A_SIG, -1 }, { A_SIG, -1 } } },
     { "4w U1:none + U1:D1 + U1:D2 + U1:none(after w2) | X: -", 1, 4,
